@@ -18,8 +18,8 @@ heights around every halving boundary on both schedules = 50 BTC >> (height // 2
 are refused, height 0 gets the full subsidy, no height -> the given reward. [TERM] the BIP141 commitment output
 6a 24 aa21a9ed || root and the reserved-value witness 01 20 0^32 are present iff a witness merkle root is supplied; exactly
 one input. [LAYOUT/TILE] block_header (4,32,32,4,4,4 = 80 bytes), block_header_deser slices tile 80 bytes behind a length
-guard, block_ser = header || cs(#tx) || txs; block_deser and mine_block threading (shared with C04); witness stacks and
-CompactSize (shared with C05).
+guard, block_ser = header || cs(#tx) || txs; block_deser threading and mine_block on scripted mempools (shared with C04:
+block contents, txid tree, witness tree, commitment condition); witness stacks and CompactSize (shared with C05).
 """
 NOT_DECIDED = "merkle roots for list lengths outside the enumerated set; SHA-256; mine_block's RPC interaction and proof-of-work loop"
 ASSUMPTIONS = ["arguments have their annotated types", "assert statements are live"]
